@@ -16,6 +16,7 @@ import (
 	"reflect"
 	"sort"
 	"strings"
+	"verif/internal/run"
 
 	"github.com/titpetric/vuego"
 	"pgregory.net/rapid"
@@ -153,15 +154,16 @@ func (g *gen) sigSources(pt string) []Arg {
 	fpath, bpath := g.argPath("f"), g.argPath("t")
 	switch pt {
 	case "string":
-		return []Arg{{K: "str", V: "abc", Q: "d"}, {K: "str", V: "x1", Q: "s"}, {K: "str", V: "42", Q: "d"}, {K: "path", V: "s"}, {K: "path", V: "m.name"}, {K: "int", V: "7"}, {K: "path", V: "a"}, {K: "float", V: "1.5"}}
+		return []Arg{{K: "path", V: "umax"}, {K: "path", V: "u63"}, {K: "path", V: "imax"}, {K: "path", V: "imin"}, {K: "path", V: "u32"}, {K: "str", V: "abc", Q: "d"}, {K: "str", V: "x1", Q: "s"}, {K: "str", V: "42", Q: "d"}, {K: "path", V: "s"}, {K: "path", V: "m.name"}, {K: "int", V: "7"}, {K: "path", V: "a"}, {K: "float", V: "1.5"}}
 	case "int":
-		return []Arg{{K: "int", V: "3"}, {K: "int", V: "-3"}, {K: "path", V: "a"}, {K: "path", V: "m.k"}, {K: "str", V: "42", Q: "s"}, {K: "str", V: "010", Q: "d"}, {K: "path", V: "num"}, {K: "path", V: "big"}}
+		return []Arg{{K: "path", V: "imax"}, {K: "path", V: "imin"}, {K: "path", V: "u32"}, {K: "int", V: "3"}, {K: "int", V: "-3"}, {K: "path", V: "a"}, {K: "path", V: "m.k"}, {K: "str", V: "42", Q: "s"}, {K: "str", V: "010", Q: "d"}, {K: "path", V: "num"}, {K: "path", V: "big"}}
 	case "float64":
-		return []Arg{{K: "float", V: "0.5"}, {K: "path", V: fpath}, {K: "path", V: "m.rate"}, {K: "int", V: "2"}, {K: "path", V: "a"}, {K: "str", V: "2.5", Q: "d"}, {K: "path", V: "num"}}
+		return []Arg{{K: "path", V: "fbig"}, {K: "path", V: "negz"}, {K: "path", V: "u32"}, {K: "path", V: "umax"}, {K: "path", V: "imax"}, {K: "float", V: "0.5"}, {K: "path", V: fpath}, {K: "path", V: "m.rate"}, {K: "int", V: "2"}, {K: "path", V: "a"}, {K: "str", V: "2.5", Q: "d"}, {K: "path", V: "num"}}
 	case "bool":
 		return []Arg{{K: "bool", V: "true"}, {K: "bool", V: "false"}, {K: "path", V: bpath}, {K: "path", V: "u"}, {K: "path", V: "m.ok"}}
 	}
-	return []Arg{{K: "str", V: "abc", Q: "s"}, {K: "int", V: "7"}, {K: "float", V: "1.5"}, {K: "float", V: "2.0"}, {K: "float", V: "1e3"}, {K: "bool", V: "true"}, {K: "path", V: "a"}, {K: "path", V: "s"}, {K: "path", V: fpath}, {K: "path", V: "big"}}
+	return []Arg{{K: "path", V: "umax"}, {K: "path", V: "u63"}, {K: "path", V: "imax"}, {K: "path", V: "imin"}, {K: "path", V: "u32"}, {K: "path", V: "fbig"}, {K: "path", V: "negz"},
+		{K: "str", V: "abc", Q: "s"}, {K: "int", V: "7"}, {K: "float", V: "1.5"}, {K: "float", V: "2.0"}, {K: "float", V: "1e3"}, {K: "bool", V: "true"}, {K: "path", V: "a"}, {K: "path", V: "s"}, {K: "path", V: fpath}, {K: "path", V: "big"}}
 }
 
 func argExpr(a Arg) Expr {
@@ -244,7 +246,7 @@ func (g *gen) enumSigs() []Case {
 	for _, name := range sigNames {
 		counts := []int{0}
 		if funcs[name].variadic {
-			counts = []int{0, 1, 3}
+			counts = run.Pick([]int{1, 3}, []int{0, 1, 3})
 		}
 		for _, nvar := range counts {
 			n++
